@@ -343,7 +343,7 @@ func c10EnumString(i int) string {
 func init() {
 	register(&Prop{
 		ID:   "C10",
-		Rule: "kinds: print (random token sequences over {/,~,0,1,a,é,世,empty}), parse (exhaustive strings over {/,~,0,1,a} in length-lex order, then random incl. multi-byte), isnumeric (direct probes of PathSegment.IsNumeric), parse-twice (a parsed path is scribbled on, then the same string parsed again), eval (a 260-item list x one-byte tokens; generated documents x pointers aimed at existing locations, neighbours, non-numeric/negative/non-canonical tokens and all-digit tokens beyond 2^63 and 2^64 (which wrap to existing indexes in machine arithmetic) on lists), parent. Non-trivial: token/string contains '~' or '/', pointer has >= 2 tokens. Distinct by Gallina term. A third of the eval documents use member names with dots, slashes and the empty name; the dotted spelling of a nested member is tried as a member name.",
+		Rule: "kinds: print (random token sequences over {/,~,0,1,a,é,世,empty}), parse (exhaustive strings over {/,~,0,1,a} in length-lex order, then random incl. multi-byte), isnumeric (direct probes of PathSegment.IsNumeric), parse-twice (a parsed path is scribbled on, then the same string parsed again), eval (a 260-item list x one-byte tokens; generated documents x pointers aimed at existing locations, neighbours, non-numeric/negative/non-canonical tokens and all-digit tokens beyond 2^63 and 2^64 (which wrap to existing indexes in machine arithmetic) on lists), parent. Non-trivial: token/string contains '~' or '/', pointer has >= 2 tokens. Distinct by Gallina term. A third of the eval documents use member names with dots, slashes and the empty name; the dotted spelling of a nested member is tried as a member name. White space (blank, newline, U+3000) is part of the alphabet; corpus: strings with leading white space, tokens ending in white space, two escaped tokens in one pointer.",
 		Corpus: func() []Case {
 			return []Case{
 				c10Eval(map[string]any{"a": []any{1, 2}}, []string{"a", "x", "0"}), // skip of non-numeric token
